@@ -409,8 +409,10 @@ RenderNode(n, env, g) ==
                            [g EXCEPT !.cur = n.path])
             ELSE <<>>
       [] n.t = "slot" ->
-            << [t |-> "slot", name |-> RenderValue(n.name, env, VS("")), at |-> RenderAttrs(n.at, 1, env, TRUE, <<>>),
-                slot |-> IF env.sm THEN [t |-> "absent"] ELSE SlotOf(n.at, env)] >>
+            \* (a <slot> that receives slot values itself - a forwarding slot - sees them in its own attributes, like any element)
+            LET env2 == [env EXCEPT !.scopes = @ \o SlotScopes(n.at, 1, env.sv, <<>>)] IN
+            << [t |-> "slot", name |-> RenderValue(n.name, env2, VS("")), at |-> RenderAttrs(n.at, 1, env2, TRUE, <<>>),
+                slot |-> IF env.sm THEN [t |-> "absent"] ELSE SlotOf(n.at, env2)] >>
 
 RenderSeq(ns, env, g) ==
     IF ns = <<>> THEN <<>> ELSE RenderNode(ns[1], env, g) \o RenderSeq(Tail(ns), env, g)
@@ -482,7 +484,7 @@ UsesNode(n, bound, inDyn) ==
       [] n.t = "blockslot" -> Join(Both(ValueIds(n.slot, bound)), UsesSeq(n.ch, bound, inDyn))
       [] n.t = "tmplis"  -> Both(ValueIds(n.target, bound) \cup ValueIds(n.data, bound))
       [] n.t = "include" -> Both({})
-      [] n.t = "slot"    -> Both(ValueIds(n.name, bound) \cup AttrsIds(n.at, 1, bound))
+      [] n.t = "slot"    -> LET b2 == bound \cup SlotScopeNames(n.at, 1) IN Both(ValueIds(n.name, b2) \cup AttrsIds(n.at, 1, b2))
 UsesSeq(ns, bound, inDyn) ==
     IF ns = <<>> THEN Both({}) ELSE Join(UsesNode(ns[1], bound, inDyn), UsesSeq(Tail(ns), bound, inDyn))
 
